@@ -237,6 +237,15 @@ def check(prog: Program, rep):
         for n in ast.walk(cons_loop):
             if isinstance(n, ast.If) and any(isinstance(b, ast.Raise) for b in n.body):
                 pred = norm(n.test)
+        # a local that holds the edge set of the graph, stored after the edge loop and before the validation (`edge_set = set(G.edges())`),
+        # stands for G.edges in the predicate
+        if pred is not None:
+            for st in f.node.body:
+                if isinstance(st, ast.Assign) and len(st.targets) == 1 and isinstance(st.targets[0], ast.Name) and edge_loop.lineno < st.lineno < cons_loop.lineno and \
+                        re.fullmatch(r"(set|frozenset)\((\w+)\.edges(\(\))?\)", norm(st.value)) and \
+                        sum(1 for x in ast.walk(f.node) if isinstance(x, ast.Name) and isinstance(x.ctx, ast.Store) and x.id == st.targets[0].id) == 1:
+                    gname = re.fullmatch(r"(set|frozenset)\((\w+)\.edges(\(\))?\)", norm(st.value)).group(2)
+                    pred = re.sub(r"\b%s\b" % re.escape(st.targets[0].id), gname + ".edges", pred)
         if pred is None or not any(re.match(p, pred) for p in EDGE_MEMBERSHIP):
             probs.append(f"the predicate `{pred}` is not an edge-membership test (accepted: not G.has_edge(u, v) / (u, v) not in G.edges): a constraint naming "
                          "two existing nodes that are not joined by an edge is accepted")
